@@ -13,9 +13,12 @@ RULE = ("primary histories of 1-10 operations over 1-3 databases (strategies non
         "disk joins (add_as_secoundary + the real supervisor, handshake and replicate-since code) while 0-3 further writes are "
         "accepted by the primary during the synchronisation under seeded random FIFO interleavings; at quiescence the joiner's "
         "databases are compared with the primary's; exhaustive over single-key histories x value alphabet; distinct = distinct "
-        "canonical trace; non-trivial = the primary held at least one live key and one removed key when the node joined")
-ASSUMPTIONS = ["full synchronisation (joiner with an empty disk, since = 0); rejoin after a restart with an older snapshot or a valid "
-               "oplog needs the node-restart model (Disk + Meta) inside the cluster model and is not covered yet",
+        "canonical trace; non-trivial = the primary held at least one live key and one removed key when the node joined; "
+        "plus the rejoin family: history split into followed / while-away / during-sync parts at random points")
+ASSUMPTIONS = ["join with an empty disk (since = 0, full synchronisation) and rejoin of a node that followed the primary, was away while "
+               "0-6 operations were accepted, and asks for everything after its own last operation (incremental synchronisation, every split "
+               "point of the history); a rejoin after a process restart from an older snapshot is not driven through the cluster harness "
+               "(restart itself is C06/C16)",
                "node clocks are one clock (one process)"]
 TRUSTED = ["links are explicit FIFO queues (hook open_link); handshake lines emulated by the harness"]
 
@@ -39,6 +42,9 @@ def mangle(v):
     t = v.split(" ", 1)
     ver = parse_i32(t[0])
     return (t[1] if len(t) > 1 else "", (ver if ver is not None else -1))
+
+
+MANGLED = None
 
 
 def gen_cases(tier, seed):
@@ -86,10 +92,51 @@ def gen_cases(tier, seed):
         ops += [["settle"]]
         cases.append(("r%d" % i, hdr, ops))
     dist["random"] = n
+    # rejoin with a valid operation log: the node follows the primary, goes away (what the primary sends it is lost),
+    # comes back and asks for everything after its own last operation (incremental synchronisation)
+    nrj = {"quick": 250, "thorough": 5000, "search": 250}[tier]
+    dist["rejoin"] = 0
+    dist["rejoin_away_ops_hist"] = {}
+    def hist_ops(k):
+        out = []
+        for _ in range(k):
+            out += rand_write2()
+        return out
+    for i in range(nrj):
+        names, hdr, ops = base_cluster(1)
+        ops += [CC("n1", 0, "create-db d1 tok1%s" % rng.choice(["", " newer", " none"])), CC("n1", 0, "use-db d1 tok1"), CC("n1", 1, "use-db d1 tok1")]
+        def rand_write2():
+            r = rng.random()
+            k = rng.choice(["a", "b", "c"])
+            v = rng.choice(VALS)
+            if r < 0.5: return [CC("n1", 0, "set %s %s" % (k, v))]
+            if r < 0.7: return [CC("n1", 0, "remove %s" % k)]
+            if r < 0.8: return [CC("n1", 0, "increment n %d" % rng.randint(1, 4))]
+            if r < 0.88: return [CC("n1", 0, "create-db e%d t%d%s" % (rng.randint(1, 2), rng.randint(1, 2), rng.choice(["", " newer"])))]
+            return [CC("n1", 0, "set-safe %s %d %s" % (k, rng.choice([-1, 0, 3]), v))]
+        for _ in range(rng.randint(0, 3)):
+            ops += rand_write2()
+        ops += [["settle"], ["addsec", "n1", "n3"], ["settle"]]
+        for _ in range(rng.randint(0, 5)):          # followed live by the node
+            ops += rand_write2() + [["settle"]]
+        na = rng.randint(0, 6)
+        dist["rejoin_away_ops_hist"][na] = dist["rejoin_away_ops_hist"].get(na, 0) + 1
+        for _ in range(na):                         # while away: the primary's lines to the node are lost
+            ops += rand_write2() + [["pollrepl", "n1"], ["drop", "n1", "n3"]]
+        ops += [["pollrepl", "n1"], ["drop", "n1", "n3"], ["resync", "n3", "n1"]]
+        for _ in range(rng.randint(0, 2)):          # during the synchronisation
+            ops += random_steps(rng, names, rng.randint(0, 4))
+            ops += rand_write2()
+        ops += [["settle"]]
+        cases.append(("j%d" % i, hdr, ops))
+        dist["rejoin"] += 1
     return cases, dist
 
 
 def oracle(case, io, mo):
+    global MANGLED
+    if MANGLED is None:
+        MANGLED = {mangle(v)[0] for v in VALS}
     fails = []
     obs = split_obs(io)
     if not obs:
@@ -129,7 +176,11 @@ def oracle(case, io, mo):
                 continue
             if a is not None and a[2] == "D" and lb:
                 fails.append(("sync-revives-removed-key", "%s key %s: removed on the primary, live %r on the joiner" % (dbn, k, b[0])))
-            elif la and lb and b[0] == mangle(a[0])[0]:
+            elif la and lb and (b[0] == mangle(a[0])[0] or (a[0] == b[0] and a[1] != b[1]) or parse_i32(a[0].split(" ", 1)[0]) is not None
+                                or b[1] == -2 or (b[0] != a[0] and b[0] in MANGLED)):
+                # the catch-up line carries no version: the value's first word is taken for it (value mangled, or the
+                # line refused / the key marked in conflict when that word is a number), or the joiner numbers the
+                # write itself (same value, other version)
                 fails.append(("sync-line-without-version", "%s key %s: primary %r@%d, joiner %r@%d" % (dbn, k, a[0], a[1], b[0], b[1])))
             else:
                 fails.append(("sync-differs", "%s key %s: primary %s, joiner %s" % (dbn, k, a, b)))
